@@ -188,7 +188,11 @@ class Pipeline(object):
         if self._state == PipelineState.stopped:
             self._state = PipelineState.running
             self._producer_task = asyncio.get_event_loop().create_task(self._run_producer_wrapper())
-            self._unpaused_event.set()
+
+            if self._concurrency:
+                self._unpaused_event.set()
+            else:
+                self._unpaused_event.clear()
 
         while self._state == PipelineState.running:
             yield from self._process_one_worker()
